@@ -107,6 +107,12 @@ def cases(tier, seed):
         cs.append({'gen': 'solve', 'routine': 'amen_solve', 'cls': ['dd', 'lap', 'spd'][i % 3], 'N': N, 'RB': gens.rank_profile(rng, d, 'rand', 2), 'Rb': [1] * (d + 1), 'rhs': 'zero-mean-factor',
                    'zm_mode': [d - 1, 0, d // 2][(i // 3) % 3], 'cfac': 10 ** rng.uniform(-0.3, 1.5), 'shift': 0.0, 'eps': 10 ** rng.uniform(-9, -4), 'prec': [None, 'c', 'r'][(i // 2) % 3],
                    'max_full': [0, 500][i % 2], 'x0': 'none', 'vseed': rng.randrange(2 ** 40), 'sidx': 0})
+    # ALMOST symmetric operators (diffusion + weak upwind convection, relative asymmetry 1e-3 .. 1e-7) at tight eps, as in C12
+    for i in range(12 if not T else 80):
+        d = rng.choice([2, 3])
+        cs.append({'gen': 'solve', 'routine': 'amen_solve', 'cls': 'cd', 'N': [rng.randint(4, 9) for _ in range(d)], 'RB': [1] * (d + 1), 'Rb': [1] + [rng.randint(1, 3) for _ in range(d - 1)] + [1],
+                   'rhs': ['random', 'image'][i % 2], 'cfac': 1.0, 'conv': [1e-5, 1e-6, 1e-7, 1e-3][i % 4], 'shift': [0.0, 0.1][(i // 4) % 2], 'eps': [1e-10, 1e-9][(i // 2) % 2],
+                   'prec': [None, 'c', None, 'r'][(i // 3) % 4], 'max_full': [500, 500, 0][i % 3], 'x0': ['none', 'user'][(i // 6) % 2], 'vseed': rng.randrange(2 ** 40), 'sidx': 0})
     for N in ([12, 12, 12], [8, 12, 12]):
         for prec in (None, 'c'):
             cs.append({'gen': 'solve', 'routine': 'amen_solve', 'cls': 'lap', 'N': N, 'RB': [1] * 4, 'Rb': [1, 2, 2, 1], 'rhs': 'random', 'cfac': 1.0, 'shift': 0.0, 'eps': 1e-10, 'prec': prec,
